@@ -1,51 +1,106 @@
 """cirrun.py — run functions of the regenerated Gen/Cir.lean under the C semantics of
-CSem/Eval.lean (interpreted by `lake env lean`) on concrete inputs, for the correspondence
+CSem/Eval.lean (interpreted by `lake env lean --run`) on concrete inputs, for the correspondence
 between [clang AST serialiser + Lean C semantics] and the real compiled code.  A disagreement
 here on the unchanged tree would mean the semantics or the serialiser misrepresents the code
 (the refinement theorems would then be about the wrong object)."""
 import os
 import re
+import subprocess
 
 import common
 
-PRELUDE = """import O1722.CSem.Eval
+SCRIPT = """import O1722.CSem.Eval
 import O1722.Gen.Cir
+import O1722.Gen.Data
 open O1722 O1722.C
 
-def memOf (bs : List Nat) (base : Nat) : Mem :=
-  fun a => if base ≤ a then Fin.ofNat 256 (bs.getD (a - base) 0) else 0
 def hexOf (l : List Byte) : String :=
   String.join (l.map fun b => String.ofList [Nat.digitChar (b.val / 16), Nat.digitChar (b.val % 16)])
-def showOpt : Option Nat → String | some v => toString v | none => "stuck"
 
-/-- one raw Utils case: descriptor (q,o,b) at rom 4096, PDU at 65536+off inside `bs` -/
-def utilsCase (e : Endian) (q o b : Nat) (bs : List Nat) (off v : Nat) : String :=
-  let rom : Nat → Byte := fun a => if a = 4096 then Fin.ofNat 256 q else if a = 4097 then Fin.ofNat 256 o
-    else if a = 4098 then Fin.ofNat 256 b else 0
-  let env : Env := { prog := Gen.Cir.prog e, glob := fun _ => 4096, rom := rom, ext := fun _ _ => none, endian := e }
-  let m := memOf bs 65536
-  let g := callFn env 64 "Avtp_GetField" [4096, 1, 65536 + off, 0] ⟨m, []⟩
-  let s := callFn env 64 "Avtp_SetField" [4096, 1, 65536 + off, 0, v] ⟨m, []⟩
-  let sd := match s with | some r => hexOf (r.2.mem.read 65536 bs.length) | none => "stuck"
-  s!"{showOpt (g.map (·.1))} {sd}"
+def hexVal (c : Char) : Nat :=
+  if c.isDigit then c.toNat - 48 else if 'a' ≤ c ∧ c ≤ 'f' then c.toNat - 87 else if 'A' ≤ c ∧ c ≤ 'F' then c.toNat - 55 else 0
+
+def unhex : List Char → List Nat
+  | a :: b :: rest => (hexVal a * 16 + hexVal b) :: unhex rest
+  | _ => []
+
+def tablesAll : List (String × List Desc) :=
+  [(Gen.can.tableName, Gen.can.table), (Gen.canBrief.tableName, Gen.canBrief.table), (Gen.vss.tableName, Gen.vss.table)]
+
+def tblAddr (name : String) : Nat :=
+  match tablesAll.findIdx? (fun t => t.1 == name) with
+  | some i => 8192 + 1024 * i
+  | none => 4096           -- the ad-hoc one-row table of the raw Utils cases
+
+/-- read-only data: a one-row table at 4096 (raw cases) and the regenerated tables from 8192 on -/
+def romAll (row : Nat × Nat × Nat) : Nat → Byte := fun a =>
+  if a = 4096 then Fin.ofNat 256 row.1 else if a = 4097 then Fin.ofNat 256 row.2.1 else if a = 4098 then Fin.ofNat 256 row.2.2
+  else if a < 8192 then 0 else
+    match tablesAll[(a - 8192) / 1024]? with
+    | some (_, tbl) =>
+      let o := (a - 8192) % 1024
+      match tbl[o / 3]? with
+      | some d => Fin.ofNat 256 (if o % 3 = 0 then d.quadlet else if o % 3 = 1 then d.offset else d.bits)
+      | none => 0
+    | none => 0
+
+/-- one line: `fn;a0 a1 ...;q o b;bufhex;srchex` — buffer at 65536, source buffer at 1048576 -/
+def runLine (line : String) : String :=
+  match line.splitOn ";" with
+  | [fn, args, row, bufh, srch] =>
+    let nums := fun (s : String) => (s.splitOn " ").filterMap (fun t => t.toNat?)
+    let r := nums row
+    let bs := (unhex bufh.toList).toArray
+    let src := (unhex srch.toList).toArray
+    let m : Mem := fun a => if 1048576 ≤ a then Fin.ofNat 256 (src.getD (a - 1048576) 0)
+      else if 65536 ≤ a then Fin.ofNat 256 (bs.getD (a - 65536) 0) else 0
+    let env : Env := { prog := Gen.Cir.prog .little, glob := tblAddr, rom := romAll (r.getD 0 0, r.getD 1 0, r.getD 2 0),
+                       ext := fun _ _ => none, endian := .little }
+    match callFn env 200 fn (nums args) ⟨m, []⟩ with
+    | some res => s!"R {res.1} {hexOf (res.2.mem.read 65536 bs.size)}"
+    | none => "R stuck stuck"
+  | _ => "R bad bad"
+
+partial def loop (h : IO.FS.Stream) : IO Unit := do
+  let line ← h.getLine
+  if line.isEmpty then return ()
+  IO.println (runLine (line.trimAscii.toString))
+  loop h
+
+def main : IO Unit := do loop (← IO.getStdin)
 """
 
 
-def utils_cases(cases):
-    """cases: list of (q, o, b, bytes, off, v).  Returns per case (get value str, hex dump str) for
-    the little-endian program, or raises ToolError."""
-    lines = [PRELUDE]
-    lines.append("def cases : List (Nat × Nat × Nat × List Nat × Nat × Nat) := [")
-    lines.append(",\n".join("  (%d, %d, %d, [%s], %d, %d)" % (q, o, b, ", ".join(str(x) for x in bs), off, v)
-                            for q, o, b, bs, off, v in cases))
-    lines.append("]")
-    lines.append("#eval cases.forM (fun (q, o, b, bs, off, v) => IO.println (\"R \" ++ utilsCase .little q o b bs off v)) *> pure ()")
-    rc, out = common.lean_eval("\n".join(lines) + "\n", "cirrun_utils")
+def run_lines(lines, name):
+    """lines: list of (fn, [args], (q,o,b) or None, buffer bytes, source bytes).  Returns per line
+    (value str, hex dump str)."""
+    path = os.path.join(common.BUILD, name + ".lean")
+    open(path, "w").write(SCRIPT)
+    txt = "".join("%s;%s;%s;%s;%s\n" % (fn, " ".join(str(a) for a in args), " ".join(str(x) for x in (row or (0, 0, 0))),
+                                        bytes(buf).hex(), bytes(src).hex()) for fn, args, row, buf, src in lines)
+    r = subprocess.run(["lake", "env", "lean", "--run", path], cwd=common.LEAN, input=txt, capture_output=True, text=True, timeout=1800)
     res = []
-    for line in out.splitlines():
-        m = re.match(r"R (\S+) (\S+)", line)
+    for line in r.stdout.splitlines():
+        m = re.match(r"R (\S+) ?(\S*)", line)
         if m:
             res.append((m.group(1), m.group(2)))
-    if rc != 0 or len(res) != len(cases):
-        raise common.ToolError("interpreter run of Gen/Cir.lean failed:\n" + out[-2000:])
+    if r.returncode != 0 or len(res) != len(lines):
+        raise common.ToolError("interpreter run of Gen/Cir.lean failed:\n" + (r.stdout + r.stderr)[-2000:])
     return res
+
+
+def utils_cases(cases):
+    """cases: list of (q, o, b, bytes, off, v): raw Avtp_GetField / Avtp_SetField on a one-row table.
+    Returns per case (get value str, hex dump after set)."""
+    lines = []
+    for q, o, b, bs, off, v in cases:
+        lines.append(("Avtp_GetField", [4096, 1, 65536 + off, 0], (q, o, b), bs, []))
+        lines.append(("Avtp_SetField", [4096, 1, 65536 + off, 0, v], (q, o, b), bs, []))
+    res = run_lines(lines, "cirrun_utils")
+    return [(res[2 * k][0], res[2 * k + 1][1]) for k in range(len(cases))]
+
+
+def mem_cases(cases, name="cirrun_mem"):
+    """cases: list of (function name, [args], buffer bytes, source bytes); the buffer is at 65536, the
+    source buffer at 1048576.  Returns per case (value str, hex dump str)."""
+    return run_lines([(fn, args, None, buf, src) for fn, args, buf, src in cases], name)
